@@ -369,7 +369,7 @@ func (s *Sorts) sortOf(t types.Type) (string, error) {
 func (s *Sorts) structInfoOf(t types.Type) (*structInfo, error) {
 	t = types.Unalias(t)
 	key := s.typeKey(t)
-	if s.tsubst != nil {
+	if s.tsubst != nil && mentionsTypeParam(t, map[types.Type]bool{}) {
 		// instantiate key
 		key = key + s.substKey()
 	}
@@ -420,6 +420,40 @@ func (s *Sorts) structInfoOf(t types.Type) (*structInfo, error) {
 	}
 	s.decls = append(s.decls, sb.String())
 	return si, nil
+}
+
+// mentionsTypeParam: does the value layout of t depend on a type parameter?
+func mentionsTypeParam(t types.Type, seen map[types.Type]bool) bool {
+	if seen[t] {
+		return false
+	}
+	seen[t] = true
+	switch u := t.(type) {
+	case *types.TypeParam:
+		return true
+	case *types.Named:
+		if ta := u.TypeArgs(); ta != nil {
+			for i := 0; i < ta.Len(); i++ {
+				if mentionsTypeParam(ta.At(i), seen) {
+					return true
+				}
+			}
+		}
+		return mentionsTypeParam(u.Underlying(), seen)
+	case *types.Alias:
+		return mentionsTypeParam(types.Unalias(u), seen)
+	case *types.Struct:
+		for i := 0; i < u.NumFields(); i++ {
+			if mentionsTypeParam(u.Field(i).Type(), seen) {
+				return true
+			}
+		}
+	case *types.Array:
+		return mentionsTypeParam(u.Elem(), seen)
+	case *types.Pointer, *types.Slice, *types.Map, *types.Signature, *types.Chan, *types.Interface:
+		return false // one sort whatever the element type is
+	}
+	return false
 }
 
 func (s *Sorts) substKey() string {
@@ -482,7 +516,16 @@ func splitArgs(s string) []string {
 }
 
 // zero value of a sort (for Go zero values)
+var zeroDepth int
+var zeroStack []string
+
 func (s *Sorts) zeroOf(t types.Type) (Term, error) {
+	zeroDepth++
+	zeroStack = append(zeroStack, t.String())
+	defer func() { zeroDepth--; zeroStack = zeroStack[:len(zeroStack)-1] }()
+	if zeroDepth > 60 {
+		return Term{}, fmt.Errorf("zero value of recursive type %s: %v", t, zeroStack[len(zeroStack)-8:])
+	}
 	srt, err := s.sortOf(t)
 	if err != nil {
 		return Term{}, err
